@@ -297,8 +297,11 @@ def raw_view(A, a):
 
 def run_unit(part, unit, xreq):
     spec, mode, tier = unit['spec'], unit['mode'], unit['tier']
-    F = rf.make_field(spec)
-    A = rf.Adapter(F)
+    A = rf.guarded_adapter(part, 'C22', spec, dict(spec=spec, check='bytes', codes=[], form='int'))
+    if A is None:
+        part.caps.append('a unit was abandoned: field construction failed (see violation)')
+        return
+    F = A.F
     R = A.ref
     name = rf.field_name(spec)
     alpha = list_alphabet(R, mode)
@@ -309,18 +312,20 @@ def run_unit(part, unit, xreq):
     def do_list(codes):
         nonlocal sampled
         for form in forms:
-            ok, obs = check_bytes(A, codes, form)
+            ok, obs = rf.limited(lambda: check_bytes(A, codes, form))
             part.case(key=None, nontrivial=any(c > 1 for c in codes))
             part.outcomes.add(('bytes', form, len(codes) if len(codes) < 5 else 'long', ok))
             if not ok:
                 cls = 'empty' if not codes else 'top' if max(codes) >= R.q - 2 else 'other'
-                part.violation(f'C22:bytes_roundtrip:{A.kind}:{form}:{cls}',
+                rf.note_violation(part, f'C22:bytes_roundtrip:{A.kind}:{form}:{cls}',
                                f'{name}: from_bytes(to_bytes({codes if len(codes) <= 6 else str(codes[:6]) + "..."})) '
                                f'[{form} values, byte_length {F.byte_length}]: {obs}',
                                dict(spec=spec, check='bytes', codes=codes, form=form))
-            elif not sampled and len(codes) == 3 and min(codes) > 1:
+                if 'raised Hang' in obs:
+                    raise rf.Hang
+            elif not sampled and len(codes) == 3 and len(set(codes)) == 3 and codes[0] > 1 and form == forms[-1]:
                 sampled = True
-                part.sample(dict(field=name, list=codes, form=form, observed=obs))
+                rf.note_sample(part, dict(field=name, list=codes, form=form, observed=obs))
 
     if unit['lo'] == 0:
         do_list([])
@@ -336,20 +341,24 @@ def run_unit(part, unit, xreq):
     mine = elems[idx::n_chunks]
     for a in mine:
         for proto in PROTOCOLS:
-            ok, obs = check_pickle(A, a, proto)
+            ok, obs = rf.limited(lambda: check_pickle(A, a, proto))
             part.case(key=None, nontrivial=a > 1)
             part.outcomes.add(('pickle', proto, ok))
             if not ok:
-                part.violation(f'C22:pickle:{A.kind}', f'{name}: pickle round trip (protocol {proto}) of element code {a}: {obs}',
+                rf.note_violation(part, f'C22:pickle:{A.kind}', f'{name}: pickle round trip (protocol {proto}) of element code {a}: {obs}',
                                dict(spec=spec, check='pickle', a=a, proto=proto))
+                if 'raised Hang' in obs:
+                    raise rf.Hang
         for signed in ((True, False) if A.kind == 'prime' else (None,)):
-            for vname, ok, obs, exp in check_views(A, a, signed):
+            for vname, ok, obs, exp in rf.limited(lambda: check_views(A, a, signed)):
                 part.case(key=None, nontrivial=a > 1)
                 part.outcomes.add((vname, signed, ok, view_class(A, a)))
                 if not ok:
-                    part.violation(f'C22:{vname}:{A.kind}{view_class(A, a)}',
+                    rf.note_violation(part, f'C22:{vname}:{A.kind}{view_class(A, a)}',
                                    f'{name}: {vname} of element code {a} (is_signed={signed}): observed {obs}, expected {exp}',
                                    dict(spec=spec, check='views', a=a, signed=signed))
+                    if 'raised Hang' in obs:
+                        raise rf.Hang
     if unit['lo'] == 0:
         picks = sorted({elems[0], elems[1 % len(elems)], elems[len(elems) // 2], elems[-2 % len(elems)], elems[-1]})
         xreq.append((spec, name, A, picks,
@@ -374,7 +383,7 @@ def run_xproc(part, xreq):
                 and r['value'] == val and r['again'] and r['same_class']
             part.outcomes.add(('xproc', ok))
             if not ok:
-                part.violation(f'C22:pickle:{A.kind}:xproc',
+                rf.note_violation(part, f'C22:pickle:{A.kind}:xproc',
                                f'{name}: element code {a} unpickled in a fresh interpreter gives {r}, expected order {A.q}, '
                                f'modulus {mod}, value {val}', dict(spec=spec, check='xproc', a=a))
 
@@ -402,34 +411,49 @@ def jobs(tier, seed):
     return [dict(units=b[1]) for b in bins if b[1]]
 
 
+def coverage_extra(tier, seed, total):
+    # representative case per violation key: prefer genuine (degree >= 2 or prime) fields over degree-1 extensions
+    return rf.finalize(total, prefer=lambda d: int(d['spec'].get('mod') is not None and len(d['spec']['mod']) <= 2))
+
+
 def run_job(job):
     part = Part()
+    rf.arm_watchdog()
     xreq = []
     for unit in job['units']:
-        run_unit(part, unit, xreq)
+        try:
+            run_unit(part, unit, xreq)
+        except rf.Hang:
+            rf.note_violation(part, f'C22:hang:{rf.spec_kind(unit["spec"])}',
+                              f'{rf.field_name(unit["spec"])}: a serialisation/view call did not return within the watchdog limit',
+                              dict(spec=unit['spec'], check='bytes', codes=[1], form='int'))
+            part.caps.append('a unit was abandoned after a call into the code under test hung (see violation)')
     run_xproc(part, xreq)
     return part
 
 
 def replay(case):
     part = Part()
+    rf.arm_watchdog()
     spec = case['spec']
-    A = rf.Adapter(rf.make_field(spec))
+    A = rf.guarded_adapter(part, 'C22', spec, case)
+    if A is None:
+        return part
     name = rf.field_name(spec)
     if case['check'] == 'bytes':
         ok, obs = check_bytes(A, case['codes'], case['form'])
         if not ok:
             codes = case['codes']
             cls = 'empty' if not codes else 'top' if max(codes) >= A.q - 2 else 'other'
-            part.violation(f'C22:bytes_roundtrip:{A.kind}:{case["form"]}:{cls}', f'{name}: {codes[:6]}: {obs}', case)
+            rf.note_violation(part, f'C22:bytes_roundtrip:{A.kind}:{case["form"]}:{cls}', f'{name}: {codes[:6]}: {obs}', case)
     elif case['check'] == 'pickle':
         ok, obs = check_pickle(A, case['a'], case['proto'])
         if not ok:
-            part.violation(f'C22:pickle:{A.kind}', f'{name}: element code {case["a"]}: {obs}', case)
+            rf.note_violation(part, f'C22:pickle:{A.kind}', f'{name}: element code {case["a"]}: {obs}', case)
     elif case['check'] == 'views':
         for vname, ok, obs, exp in check_views(A, case['a'], case['signed']):
             if not ok:
-                part.violation(f'C22:{vname}:{A.kind}{view_class(A, case["a"])}',
+                rf.note_violation(part, f'C22:{vname}:{A.kind}{view_class(A, case["a"])}',
                                f'{name}: element code {case["a"]}: observed {obs}, expected {exp}', case)
     else:
         a = case['a']
